@@ -13,7 +13,11 @@ EXTENDS Naturals, Sequences
 Outcomes == {"value", "error"}             \* the only acceptable outcomes
 \* bytes a call may allocate: a small multiple of the input size plus a constant
 \* (getters, printers and re-encoders of the returned object run inside the call)
-Budget(len) == 2097152 + (4096 * len)
+\* (TLC's integers are 32 bits wide: beyond 400 000 input bytes the budget is the cap the harness reports at)
+Budget(len) == IF len > 400000 THEN 2000000000 ELSE 2097152 + (4096 * len)
+\* bytes the stack of the calling goroutine may grow by: the depth of calls must not follow the input (a frame per
+\* input byte or per packet makes the Go runtime end the process once the stack passes its limit)
+StackBudget(len) == IF len > 100000000 THEN 2000000000 ELSE 1048576 + (16 * len)
 
 \* <<entry point, kind, ro>>; ro: the operation must not modify the caller's buffer
 Entries == {
@@ -49,10 +53,12 @@ Judge(e) ==
   ELSE IF e.outcome = "panic" THEN "panic"
   ELSE IF e.outcome = "hang" THEN "hang-no-result-within-deadline"
   ELSE IF e.outcome = "oom" THEN "memory-limit-exceeded"
+  ELSE IF e.outcome = "fatal" THEN "process-ended-by-a-fatal-runtime-error"
   ELSE IF e.outcome \notin Outcomes THEN "harness-bad-outcome-" \o e.outcome
   ELSE IF e.kind # KindOf(e.op) THEN "harness-bad-kind"
   ELSE IF e.kind = "packet" /\ e.len # 188 THEN "harness-bad-input"
   ELSE IF ReadOnly(e.op) /\ ~e.input_same THEN "read-only-operation-modified-its-input"
   ELSE IF e.alloc > Budget(e.len) THEN "allocation-beyond-budget"
+  ELSE IF e.stack > StackBudget(e.len) THEN "stack-beyond-budget"
   ELSE ""
 =============================================================================
